@@ -8,7 +8,7 @@ Extraction "model.ml" lex parse fmt is_space is_letter is_punct
   sha256 hash_spec hash_run
   run_order valid_order valid_partial
   run_i apply_op_i init_i state_at_i
-  find_spokfile expand glob_spec expand_with old_spok_cb invoke
+  find_spokfile expand glob_spec expand_with old_spok_cb expand_pat glob_spec_pat invoke
   trim join_builtin expand_vars render_cmd env_lookup cmd_env clean
   clean_fs write_kind may_change
   render erase cst_wf_b layout ser_result.
